@@ -18,7 +18,7 @@ CLAIMS.update({
    note="Trusted: sort.Slice is deterministic for a strict weak order; interface accessors GetRange/GetTokens/GetArgs are pure; the inner fold countRefAndGenericArgs is an assumed contract.",
    ref="6/C16"),
  "C09": dict(
-   text="Partial. Deductive proof that the candidate comparator of sortAliases orders by (pattern length descending, generic parameters ascending, reference parameters descending) as the statement prescribes, and that this order is a strict weak order (lemmas). Candidate selection loop, argument binding by name and operator overload lookup are not yet under contract.",
+   text="Partial. Deductive proof that the candidate comparator of sortAliases orders by (pattern length descending, generic parameters ascending, reference parameters descending) as the statement prescribes, and that this order is a strict weak order (lemmas). Operator overload lookup (findOverload): every candidate is tried with freshly cleared type-parameter bindings (per-iteration obligation on the candidate loop), so a binding made while rejecting one candidate cannot leak into the next. The alias candidate selection loop and argument binding by name (checkAlias) are not under contract (symbolic execution of checkAlias does not finish).",
    note="Trusted: GetTokens/GetArgs pure; the fold countRefAndGenericArgs (assumed contract: counts top-level generic parameters - known limitation F-09).",
    ref="6/C09"),
  "C06": dict(
@@ -42,7 +42,7 @@ CLAIMS.update({
    note="Trusted: llir builder contracts (type classes per LangRef), the induction hypothesis on c.evaluate for sub-expressions (each other Visit* method yields the descriptor and IR type of the checker's type), the compiler's set-up facts wfCompiler (distinct descriptors, IR constants' types), commentNode frame.",
    ref="6/C02"),
  "C04": dict(
-   text="Partial (rule 'operand of a wrong type', so far). For the type checker's VisitUnaryExpr, VisitBinaryExpr (arithmetic, durch, modulo, bitwise, shifts, comparisons, entweder-oder) and VisitTernaryExpr (zwischen), per operator: an operand tuple that is inadmissible by the language's typing table is reported (the module becomes faulty through the one error path err, which is itself under contract), an admissible one adds no diagnostic, and the result type is the one the table gives. The same table (package ast contracts) is the precondition of the code generator's contracts under C02. isOneOf is proved to be membership up to type equivalence. Name rules of the resolver: a name used as a value that is undeclared or stands for a function/Kombination is reported and otherwise bound to its declaration; assignment to an undeclared name, a non-variable or a constant is reported; a redeclaration in the same scope is reported; break/continue outside a loop is reported; each report makes the module faulty through the one error path. Final return, visibility of private fields and articles are not under contract.",
+   text="Partial (rule 'operand of a wrong type', so far). For the type checker's VisitUnaryExpr, VisitBinaryExpr (arithmetic, durch, modulo, bitwise, shifts, comparisons, entweder-oder) and VisitTernaryExpr (zwischen), per operator: an operand tuple that is inadmissible by the language's typing table is reported (the module becomes faulty through the one error path err, which is itself under contract), an admissible one adds no diagnostic, and the result type is the one the table gives. The same table (package ast contracts) is the precondition of the code generator's contracts under C02. isOneOf is proved to be membership up to type equivalence. Name rules of the resolver: a name used as a value that is undeclared or stands for a function/Kombination is reported and otherwise bound to its declaration; assignment to an undeclared name, a non-variable or a constant is reported; a redeclaration in the same scope is reported; break/continue outside a loop is reported; each report makes the module faulty through the one error path. Statement and expression rules of the type checker (conditions of wenn/solange/für must be Wahrheitswert, counting-loop bounds numeric, for-each over Text or a list, index of a list/Text must be a Zahl, field access only on Kombinationen, return type matches the declaration, every argument of a call whose type differs from its parameter's is reported - per-iteration obligation on the argument loop): a violating node is reported. Final return, visibility of private fields and articles are not under contract.",
    note="Trusted: Evaluate as induction hypothesis for sub-expressions, findOverload frame, ddptypes contracts (C14), diagnostic handler model.",
    ref="6/C04"),
  "C19": dict(
@@ -58,7 +58,7 @@ CLAIMS.update({
    note="Trusted: as for C02 (llir builder contracts, induction hypothesis on evaluate, wfCompiler).",
    ref="6/C01"),
  "C15": dict(
-   text="Fragment (the ddptypes side of the statement). The binding step of unification (the closure unifyType of UnifyGenericType) is proved against its map specification: an already-bound type parameter keeps its first binding and returns it (so that the caller's comparison with the argument type rejects a second, different binding), an unbound one is bound to the argument, and no other binding changes. The struct instantiation cache GetInstantiatedStructType is proved, with a loop invariant over the cached list, to return the first cached instantiation whose type arguments are pairwise equivalent to the requested ones (equal arguments: one and the same type object), otherwise a fresh object distinct from every cached one that is appended to the cache, and nil exactly on an arity mismatch. Not decided: re-parsing of generic function bodies, the per-module function cache, the merged symbol table, and code generation of instantiations (they are behavioural equivalences between two parses, outside function contracts).",
+   text="Fragment (the ddptypes side of the statement). The binding step of unification (the closure unifyType of UnifyGenericType) is proved against its map specification: an already-bound type parameter keeps its first binding and returns it (so that the caller's comparison with the argument type rejects a second, different binding), an unbound one is bound to the argument, and no other binding changes; in UnifyGenericType every type argument of a generic Kombination parameter ends its iteration checked against the argument's (loop-end obligation), so none escapes the consistency check. The struct instantiation cache GetInstantiatedStructType is proved, with a loop invariant over the cached list, to return the first cached instantiation whose type arguments are pairwise equivalent to the requested ones (equal arguments: one and the same type object), otherwise a fresh object distinct from every cached one that is appended to the cache, and nil exactly on an arity mismatch. Not decided: re-parsing of generic function bodies, the per-module function cache, the merged symbol table, and code generation of instantiations (they are behavioural equivalences between two parses, outside function contracts).",
    note="Trusted: slices.EqualFunc (result is the uninterpreted relation eqAllBy of its three arguments), immutability of StructType.instantiatedWith after construction, map model of the engine.",
    ref="6/C15"),
  "C18": dict(
@@ -66,7 +66,7 @@ CLAIMS.update({
    note="Trusted: ir.NewParam/Module.NewFunc (llir), IrType/PtrType accessors as uninterpreted functions of the descriptor (PtrType = pointer to IrType is a set-up fact), CastDeeplyNestedGenerics as the definition of 'generic', mangledNameDecl frame, immutability of the descriptor fields of the compiler, AST link GenericInstantiation.GenericDecl != nil.",
    ref="6/C18"),
  "C12": dict(
-   text="The C runtime's Text functions are extracted mechanically from the tree's C sources on every run (clang -O0 LLVM IR -> Go, one statement per IR instruction; DESIGN 3b) and verified function by function against contracts over a ghost byte-memory model (blocks with contents and size; every byte access is an obligation 'inside a live block'). Proved for all inputs: the UTF-8 byte classes and widths of utf8.c (continuation/lead classification by bit masks, utf8_indicated_num_bytes, utf8_num_bytes = width of the first well-formed character or 0, utf8_num_bytes_char = encoding length or -1 for non-scalar values incl. surrogates); utf8_strlen and ddp_string_length return the number of code points (count of lead bytes - a counting quantifier with loop invariant); utf8_char_to_string/utf8_string_to_char against the encoding/decoding arithmetic (glibc's conversion functions trusted); indexing returns the index-th code point and errors exactly outside 1..length; character replacement keeps the bytes before and after and yields a well-formed Text of the right length for shorter, equal and longer encodings; the three concatenations produce exactly the bytes of the operands in order, consume their Text operand and keep the other; Buchstabe->Text conversion; copies are byte-identical and fresh; equality holds exactly for equal byte sequences (and is memory-safe for the non-canonical empty Texts the runtime produces). Texts are well-formed (cap bytes, one terminating NUL) after every operation. Not decided: slicing (ddp_string_slice), number<->Text conversions, iteration code emitted by the compiler, that operations preserve UTF-8 validity (validT is a precondition of indexing/replacement, not yet a postcondition), normalisation questions.",
+   text="The C runtime's Text functions are extracted mechanically from the tree's C sources on every run (clang -O0 LLVM IR -> Go, one statement per IR instruction; DESIGN 3b) and verified function by function against contracts over a ghost byte-memory model (blocks with contents and size; every byte access is an obligation 'inside a live block'). Proved for all inputs: the UTF-8 byte classes and widths of utf8.c (continuation/lead classification by bit masks, utf8_indicated_num_bytes, utf8_num_bytes = width of the first well-formed character or 0, utf8_num_bytes_char = encoding length or -1 for non-scalar values incl. surrogates); utf8_strlen and ddp_string_length return the number of code points (count of lead bytes - a counting quantifier with loop invariant); utf8_char_to_string/utf8_string_to_char against the encoding/decoding arithmetic (glibc's conversion functions trusted); indexing returns the index-th code point and errors exactly outside 1..length; character replacement keeps the bytes before and after and yields a well-formed Text of the right length for shorter, equal and longer encodings; the three concatenations produce exactly the bytes of the operands in order, consume their Text operand and keep the other; Buchstabe->Text conversion; copies are byte-identical and fresh; equality holds exactly for equal byte sequences (and is memory-safe for the non-canonical empty Texts the runtime produces). Texts are well-formed (cap bytes, one terminating NUL) after every operation. Slicing (ddp_string_slice) copies exactly the bytes from the lead byte of the clamped first index to the end of the character at the clamped second index. Not decided: number<->Text conversions, iteration code emitted by the compiler, that operations preserve UTF-8 validity (validT is a precondition of indexing/replacement, not yet a postcondition), normalisation questions.",
    note="Trusted: clang -O0 IR as the meaning of C, the extraction tool, libc contracts (strlen, memcpy, memmove, memcmp, realloc, free), glibc c32rtomb/mbrtoc32 (observed behaviour: encodes up to 0x7fffffff), out-of-memory not modelled, signed 64-bit integers with every overflow an obligation (stricter than C for size_t).",
    ref="6/C12"),
  "C05": dict(
